@@ -15,9 +15,9 @@ func init() { props["C12"] = c12 }
 func c12(tier string) int {
 	start := time.Now()
 	rep := evid.NewReporter("C12")
-	maxOrig, maxActs := 2, 2
+	maxOrig, maxActs := 3, 2
 	if tier == "thorough" {
-		maxOrig = 3
+		maxOrig = 4
 	}
 	r := overlayx.Run(maxOrig, maxActs)
 	if f := os.Getenv("VERIF_C12_DUMP"); f != "" {
